@@ -584,6 +584,24 @@ Definition extract_style (p : Z) (s : text) : option sval :=
     end
   else extract_enum p s.
 
+(* StyleProperties.<p>.validate as far as a parsed value can fail it: the units of tts:extent, tts:origin, tts:position and
+   ebutts:linePadding (set_style / DiscreteAnimationStep raise ValueError, which the reader logs) *)
+Definition unit_in (u : Z) (l : list Z) : bool := existsb (Z.eqb u) l.
+Definition validate_style (p : Z) (v : sval) : bool :=
+  match v with
+  | SExtent w h => unit_in (l_unit w) [U_pct; U_px; U_c; U_rw] && unit_in (l_unit h) [U_pct; U_px; U_c; U_rh]
+  | SOrigin x y => unit_in (l_unit x) [U_pct; U_px; U_c; U_rw] && unit_in (l_unit y) [U_pct; U_px; U_c; U_rh]
+  | SPosition _ ho _ vo => unit_in (l_unit ho) [U_pct; U_px; U_c; U_rw] && unit_in (l_unit vo) [U_pct; U_px; U_c; U_rh]
+  | SLen l => if p =? P_LinePadding then unit_in (l_unit l) [U_c; U_rh; U_rw] else true
+  | _ => true
+  end.
+(* what the reader stores for a style attribute: the parsed value if the model accepts it *)
+Definition read_style (p : Z) (s : text) : option sval :=
+  match extract_style p s with
+  | Some v => if validate_style p v then Some v else None
+  | None => None
+  end.
+
 (* ---- time expressions: to_time_format ------------------------------------------------------------------------------ *)
 Inductive tsyntax := SyClock | SyFrames | SyClockFrames.
 (* None = ValueError (ClockTime.from_seconds refuses negative values); negative values in the frame syntaxes produce
